@@ -281,6 +281,28 @@ CHECKS.update({
   ref="DESIGN.md §5 C17, docs/C17.md", tech=TECH),
 })
 
+CHECKS.update({
+ "C03": dict(
+  text=("Coq model of 150 natives of internalFuncs (operators, formats, _index/_slice/_range, paths, sort family, 58 math functions, "
+        "error/halt) over values with the FOUR Go number representations as distinct constructors, dispatching exactly as the Go "
+        "type switches do, with every Go panic site an explicit Panic outcome; the model's function table is proved equal to the "
+        "table TRANSLATED from func.go on every run. 14 theorems: dispatch_total (for all 150 natives, any oracles and any "
+        "arguments the result is never Panic), Compare equals the documented order, + - * / % and comparisons and // meet the "
+        "documented 7x7 type dispatch for arbitrary values, int kernels exact, 13 natives meet their documented function, "
+        "representation independence of the conversions, Compare, operators, all math natives and a batch of natives (int, big "
+        "and literal interchangeable at any size; float and fraction/exponent literals up to 2^53 and beyond the double range). "
+        "Correspondence: every name/arity of `builtins` plus operators on all tuples of a ~60-value universe (279k direct native "
+        "calls, 696k representation variants, compiled path vs direct call) judged by the extracted model and by the "
+        "documented-function spec for 47 names; builtin.go vs a fresh parse of builtin.jq (DeepEqual per definition); no panic, "
+        "no modified input."),
+  note=TRUST + "Axioms: Flocq's Reals (ClassicalDedekindReals.sig_not_dec, sig_forall_dec, functional_extensionality_dep, "
+       "Classical_Prop.classic). Hypothesis pf_bigint: ParseFloat of integer digits is correctly rounded. PARTIAL: "
+       "C03_meets_doc_full / C03_rep_independent_full for ALL natives are Definitions, not theorems (the remaining natives are "
+       "judged against Spec.v on every run); libm functions, frexp/modf, fromjson are oracles compared by class; regex and "
+       "time natives are C14/C13's.",
+  ref="DESIGN.md §5 C03, docs/C03.md", tech=TECH),
+})
+
 ORDER = ["C%02d" % i for i in range(1, 21)]
 NOT_APPLICABLE = {}
 PENDING_REASON = "check under construction in this development (builder not finished); not claimed yet"
